@@ -92,12 +92,16 @@ theorem idInner_not_err {E : Env} {f : Nat} {x : Extra} : idInner E f x ≠ .err
     | none => simp
     | some en => cases hv : en.value? x.name <;> simp [hv]
 
-/-- the three outcomes of `getID` seen from the IDL side (`g` = the file the initializer is written in) -/
-theorem getID_sound {E : Env} {ρG ρI : ConstEnv} (ha : EnvAgree E ρG ρI) {g : Nat} {x : Option Extra} {r : GRef} {val : GoVal}
-    (h : getID E g x = .ok (some r)) (hv : refValue E ρI g x = some val) : evalGo E ρG (.ident r) = some val := by
+/-- the outcomes of `getID` seen from the IDL side; `gv` is the file the initializer is written in: either the
+    scope is that file, or the identifier carries no Extra (then it means the same everywhere) -/
+theorem getID_sound {E : Env} {ρG ρI : ConstEnv} (ha : EnvAgree E ρG ρI) {g gv : Nat} {x : Option Extra} {r : GRef} {val : GoVal}
+    (h : getID E g x = .ok (some r)) (hs : g = gv ∨ x = none) (hv : refValue E ρI gv x = some val) :
+    evalGo E ρG (.ident r) = some val := by
   cases x with
   | none => simp [getID] at h
   | some x =>
+    have hg : g = gv := by rcases hs with h1 | h1; exact h1; cases h1
+    subst hg
     simp only [getID, getIDValue] at h
     simp only [refValue] at hv
     cases hi : x.index with
@@ -117,11 +121,13 @@ theorem getID_sound {E : Env} {ρG ρI : ConstEnv} (ha : EnvAgree E ρG ρI) {g 
         simp only [scope_ast hs] at hv
         exact idInner_sound ha h hv
 
-theorem getID_none {E : Env} {ρG ρI : ConstEnv} (ha : EnvAgree E ρG ρI) {g : Nat} {x : Option Extra}
-    (h : getID E g x = .ok none) : refValue E ρI g x = none := by
+theorem getID_none {E : Env} {ρG ρI : ConstEnv} (ha : EnvAgree E ρG ρI) {g gv : Nat} {x : Option Extra}
+    (h : getID E g x = .ok none) (hs : g = gv ∨ x = none) : refValue E ρI gv x = none := by
   cases x with
   | none => rfl
   | some x =>
+    have hg : g = gv := by rcases hs with h1 | h1; exact h1; cases h1
+    subst hg
     simp only [getID, getIDValue] at h
     simp only [refValue]
     cases hi : x.index with
@@ -155,10 +161,12 @@ end Gen.Defaults
 namespace Gen.Defaults
 
 theorem ident_case {g gv : Nat} {s : Bytes} {x : Option Extra}
-    (hs : g = gv ∨ identFree (.ident s x) = true) : g = gv := by
+    (hs : g = gv ∨ identFree (.ident s x) = true) : g = gv ∨ x = none := by
   rcases hs with h | h
-  · exact h
-  · simp [identFree] at h
+  · exact Or.inl h
+  · cases x with
+    | none => exact Or.inr rfl
+    | some x => simp [identFree] at h
 
 section scalars
 variable {E : Env} {ρG ρI : ConstEnv} (ha : EnvAgree E ρG ρI) {root g gv : Nat} {t : ATy} {v : CV} {e : GoExpr} {val : GoVal}
@@ -182,8 +190,7 @@ theorem onBool_sound (h : onBool E g v = .ok e) (hs : g = gv ∨ identFree v = t
   | list xs => simp at hI
   | map kvs => simp at hI
   | ident s x =>
-    have hg := ident_case hs
-    subst hg
+    have hs' := ident_case hs
     simp only [onBool] at h
     simp only at hI
     by_cases ht : s = bTrue
@@ -203,10 +210,10 @@ theorem onBool_sound (h : onBool E g v = .ok e) (hs : g = gv ∨ identFree v = t
           | some r =>
             simp only [hid, Res.ok.injEq] at h
             subst h
-            cases hr : refValue E ρI g x with
+            cases hr : refValue E ρI gv x with
             | none => simp [hr] at hI
             | some w =>
-              have := getID_sound ha hid hr
+              have := getID_sound ha hid hs' hr
               rw [this]
               cases w <;> simp [hr] at hI
               subst hI; rfl
@@ -226,8 +233,7 @@ theorem onInt_sound {bits : Nat} (hb : t.cat.intBits.getD 64 = bits) (h : onInt 
   | list xs => simp at hI
   | map kvs => simp at hI
   | ident s x =>
-    have hg := ident_case hs
-    subst hg
+    have hs' := ident_case hs
     simp only [onInt] at h
     simp only at hI
     by_cases ht : s = bTrue
@@ -243,10 +249,10 @@ theorem onInt_sound {bits : Nat} (hb : t.cat.intBits.getD 64 = bits) (h : onInt 
           | none => simp [hid] at h
           | some r =>
             simp only [hid] at h
-            cases hr : refValue E ρI g x with
+            cases hr : refValue E ρI gv x with
             | none => simp [hr] at hI
             | some w =>
-              have hgo := getID_sound ha hid hr
+              have hgo := getID_sound ha hid hs' hr
               cases w <;> simp [hr] at hI
               obtain ⟨hin, hv⟩ := hI
               subst hv
@@ -277,8 +283,7 @@ theorem onDouble_sound (h : onDouble E g v = .ok e) (hs : g = gv ∨ identFree v
   | list xs => simp at hI
   | map kvs => simp at hI
   | ident s x =>
-    have hg := ident_case hs
-    subst hg
+    have hs' := ident_case hs
     simp only [onDouble] at h
     simp only at hI
     by_cases ht : s = bTrue
@@ -295,10 +300,10 @@ theorem onDouble_sound (h : onDouble E g v = .ok e) (hs : g = gv ∨ identFree v
           | some r =>
             simp only [hid, Res.ok.injEq] at h
             subst h
-            cases hr : refValue E ρI g x with
+            cases hr : refValue E ρI gv x with
             | none => simp [hr] at hI
             | some w =>
-              have := getID_sound ha hid hr
+              have := getID_sound ha hid hs' hr
               rw [this]
               cases w <;> simp [hr] at hI
               subst hI; rfl
@@ -316,8 +321,7 @@ theorem onEnum_sound (h : onEnum E g v = .ok e) (hs : g = gv ∨ identFree v = t
   | list xs => simp at hI
   | map kvs => simp at hI
   | ident s x =>
-    have hg := ident_case hs
-    subst hg
+    have hs' := ident_case hs
     simp only [onEnum] at h
     simp only at hI
     cases hid : getID E g x with
@@ -329,10 +333,10 @@ theorem onEnum_sound (h : onEnum E g v = .ok e) (hs : g = gv ∨ identFree v = t
       | some r =>
         simp only [hid, Res.ok.injEq] at h
         subst h
-        cases hr : refValue E ρI g x with
+        cases hr : refValue E ρI gv x with
         | none => simp [hr] at hI
         | some w =>
-          have := getID_sound ha hid hr
+          have := getID_sound ha hid hs' hr
           rw [this]
           cases w <;> simp [hr] at hI
           subst hI; rfl
@@ -359,8 +363,7 @@ theorem onStrBin_sound (h : onStrBin E g t v = .ok e) (hs : g = gv ∨ identFree
       | none => simp [hi] at hI
       | some b => simp [hi] at hI; exact ⟨b, hI.symm, rfl⟩
     | ident s x =>
-      have hgg := ident_case hs
-      subst hgg
+      have hs' := ident_case hs
       simp only at h0 hI
       by_cases hb : (s = bTrue || s = bFalse) = true
       · simp [hb] at h0
@@ -374,10 +377,10 @@ theorem onStrBin_sound (h : onStrBin E g t v = .ok e) (hs : g = gv ∨ identFree
           | some r =>
             simp only [hid, Res.ok.injEq] at h0
             subst h0
-            cases hr : refValue E ρI g x with
+            cases hr : refValue E ρI gv x with
             | none => simp [hr] at hI
             | some w =>
-              have := getID_sound ha hid hr
+              have := getID_sound ha hid hs' hr
               cases w <;> simp [hr] at hI
               exact ⟨_, hI.symm, this⟩
   unfold onStrBin at h
@@ -560,8 +563,7 @@ theorem rc_ident_composite {s : Bytes} {x : Option Extra} {g gv : Nat} {t : ATy}
     (hsc : t.cat = .list ∨ t.cat = .set ∨ t.cat = .map ∨ t.cat = .strct)
     (h : resolveConst E root g t (.ident s x) = .ok e) (hs : g = gv ∨ identFree (.ident s x) = true)
     (hI : evalIDL E ρI g gv t (.ident s x) = some val) : evalGo E ρG e = some val := by
-  have hgg := ident_case hs
-  subst hgg
+  have hs' := ident_case hs
   rw [resolveConst.eq_def] at h
   rw [evalIDL.eq_def] at hI
   -- what the four cases share
@@ -570,23 +572,23 @@ theorem rc_ident_composite {s : Bytes} {x : Option Extra} {g gv : Nat} {t : ATy}
         | .ok (some r) => Res.ok (GoExpr.ident r)
         | .panic => Res.panic
         | _ => fallback) = Res.ok e →
-      ∀ w, refValue E ρI g x = some w → evalGo E ρG e = some w := by
+      ∀ w, refValue E ρI gv x = some w → evalGo E ρG e = some w := by
     intro fb ty h w hw
     cases hid : getID E g x with
     | panic => simp [hid] at h
     | err => exact absurd hid getID_not_err
     | ok o =>
       cases o with
-      | none => have := getID_none ha hid; rw [this] at hw; cases hw
+      | none => have := getID_none ha hid hs'; rw [this] at hw; cases hw
       | some r =>
         simp only [hid, Res.ok.injEq] at h
         subst h
-        exact getID_sound ha hid hw
+        exact getID_sound ha hid hs' hw
   cases htn : typeName E root g t with
   | err => rcases hsc with hc | hc | hc | hc <;> simp [hc, htn] at h
   | panic => rcases hsc with hc | hc | hc | hc <;> simp [hc, htn] at h
   | ok ty =>
-    cases hr : refValue E ρI g x with
+    cases hr : refValue E ρI gv x with
     | none => rcases hsc with hc | hc | hc | hc <;> simp [hc, hr] at hI
     | some w =>
       rcases hsc with hc | hc | hc | hc <;> simp only [hc, htn] at h hI
